@@ -22,6 +22,7 @@ import (
 	"encoding/base64"
 	"fmt"
 	"strconv"
+	"strings"
 	"sync"
 	"time"
 
@@ -703,6 +704,9 @@ func (e *MetaCDC) validCreateRequest(req *request.CreateRequest) error {
 			if len(db) > e.config.MaxNameLength {
 				return servererror.NewClientError(fmt.Sprintf("the db name length exceeds %d characters, %s", e.config.MaxNameLength, db))
 			}
+			if strings.Contains(db, ".") {
+				return servererror.NewClientError(fmt.Sprintf("the db name should not contain '.', %s", db))
+			}
 			err = e.checkCollectionInfos(infos)
 			if err != nil {
 				break
@@ -711,6 +715,18 @@ func (e *MetaCDC) validCreateRequest(req *request.CreateRequest) error {
 	}
 	if err != nil {
 		return err
+	}
+
+	for _, mapping := range req.NameMapping {
+		names := []string{mapping.SourceDB, mapping.TargetDB}
+		for s, t := range mapping.CollectionMapping {
+			names = append(names, s, t)
+		}
+		for _, name := range names {
+			if strings.Contains(name, ".") {
+				return servererror.NewClientError(fmt.Sprintf("the name in the name mapping should not contain '.', %s", name))
+			}
+		}
 	}
 
 	if req.RPCChannelInfo.Name != "" && req.RPCChannelInfo.Name != e.config.SourceConfig.ReplicateChan {
@@ -761,6 +777,10 @@ func (e *MetaCDC) checkCollectionInfos(infos []model.CollectionInfo) error {
 	for _, info := range infos {
 		if info.Name == "" {
 			emptyName = true
+		}
+		if strings.Contains(info.Name, ".") {
+			// the full collection name is `db.collection`
+			return servererror.NewClientError(fmt.Sprintf("the collection name should not contain '.', %s", info.Name))
 		}
 		if info.Name == cdcreader.AllCollection && len(infos) > 1 {
 			return servererror.NewClientError(fmt.Sprintf("make sure the only one collection if you want to use the '*' collection param, current param: %v",
